@@ -224,6 +224,26 @@ func init() {
 				pid := 0
 				cons, _, _ := c02Consumer(r, ps, false, c02Pre(r, &pid))
 				stmts := append(append([]ast.Node{}, pipeLibrary(false)...), cons...)
+				if r.Chance(1, 4) {
+					// a consumer with a very wide frame, after small loops of the same statement
+					w := []int{130, 200, 257, 300}[r.Intn(4)]
+					var ss []ast.Node
+					small := ast.For{Vars: []string{"q"}, Iters: []ast.Node{ast.Call{Fn: "fromto", Args: []ast.Node{ast.IntLit{V: 0}, ast.IntLit{V: 2}}}}, Body: ast.Name{N: "q"}}
+					for i := 0; i < w; i++ {
+						ss = append(ss, ast.Assign{Name: wideName(i), Value: ast.IntLit{V: int64(i)}})
+					}
+					ss = append(ss, ast.Assign{Name: "acc", Value: ast.IntLit{V: 0}},
+						ast.For{Vars: []string{"v"}, Iters: []ast.Node{ps[0].Expr()}, Body: ast.Assign{Name: "acc", Value: ast.Binary{Op: "+", L: ast.Name{N: "acc"}, R: ast.Binary{Op: "+", L: ast.Name{N: "v"}, R: ast.Name{N: wideName(w - 1)}}}}},
+						ast.Name{N: "acc"})
+					// the small loops run in a small frame (top level or a small function) of the same statement
+					stmts = append(stmts, ast.Assign{Name: "vwide", Value: ast.FuncLit{Body: ast.Block{Stmts: ss}}})
+					if r.Bool() {
+						stmts = append(stmts, ast.Block{Stmts: []ast.Node{small, ast.Call{Fn: "vwide"}}})
+					} else {
+						stmts = append(stmts, ast.Assign{Name: "vsmall", Value: ast.FuncLit{Body: ast.Block{Stmts: []ast.Node{small, ast.IntLit{V: 0}}}}},
+							ast.ArrayLit{Elems: []ast.Node{ast.Call{Fn: "vsmall"}, ast.Call{Fn: "vwide"}}})
+					}
+				}
 				if r.Chance(1, 3) {
 					if nodes, perr, _, _, _, _ := calcrun.Parse(hostileVals[r.Intn(len(hostileVals))]); perr == nil && len(nodes) == 1 {
 						stmts = append(stmts, ast.For{Vars: []string{"hv"}, Iters: []ast.Node{ast.Call{Fn: "gmap", Args: []ast.Node{ast.IntLit{V: 900}, ast.FuncLit{Params: []string{"e"}, Body: ast.Binary{Op: "+", L: ast.Name{N: "e"}, R: calcrun.FromNode(nodes[0])}}, ast.FuncLit{Body: ps[0].Expr()}}}}, Body: ast.Name{N: "hv"}})
